@@ -356,6 +356,8 @@ def random_spec(seed: int, profile: Optional[Dict[str, Any]] = None) -> Dict[str
             net["default_speed_kmph"] = rnd.choice([10.0, 25.0, 90.0])
         if isinstance(P.get("grid"), dict):
             net.update(P["grid"])
+        if P.get("origin"):
+            net["origin"] = list(P["origin"])
         if "origin" not in net and random.Random(seed * 31 + 5).random() < P.get("other_places", 0.2):
             # a town somewhere else on the globe (stream of its own: the other draws stay what they were)
             net["origin"] = list(random.Random(seed * 31 + 6).choice(G.PLACES))
@@ -365,7 +367,9 @@ def random_spec(seed: int, profile: Optional[Dict[str, Any]] = None) -> Dict[str
         net = {"type": "denver"}
     else:
         net = {"type": "euclidean"}
-        if random.Random(seed * 31 + 5).random() < P.get("other_places", 0.2):
+        if P.get("origin"):
+            net["origin"] = list(P["origin"])
+        elif random.Random(seed * 31 + 5).random() < P.get("other_places", 0.2):
             net["origin"] = list(random.Random(seed * 31 + 6).choice(G.PLACES))
         if P.get("euclidean_default_speed") and rnd.random() < P["euclidean_default_speed"]:
             net["default_speed_kmph"] = rnd.choice([25.0, 30.0, 60.0])  # documented key; the straight-line network drives at 40 km/h whatever it says
